@@ -16,7 +16,7 @@ def units_reading(files):
         for f in fs:
             if f.endswith((".vrs", ".txt", ".head")):
                 texts[os.path.join(dp, f)] = open(os.path.join(dp, f)).read()
-    top = [p for p in texts if os.path.dirname(p) == os.path.join(ROOT, "units") and p.endswith(".vrs")]
+    top = [p for p in texts if os.path.dirname(p) == os.path.join(ROOT, "units") and p.endswith(".vrs") and not os.path.basename(p).startswith(".")]
     for u in top:
         seen, todo = set(), [u]
         hit = False
